@@ -38,3 +38,111 @@ Theorem C06_at_most_one :
     succeeded ts' i -> succeeded ts' j -> False.
 Proof. exact c06_at_most_one. Qed.
 Print Assumptions C06_at_most_one.
+
+(* ------------------------------------------------------------------------------------------------------------------
+   The same over Model/ConcAll.v (Proofs/C06a.v): every request kind as a thread, one step per top-level transaction (the
+   class-cache loads and the DELETE /allocations thread included), any number of threads, any schedule, any start state.
+   Stated with a tally of the increments each request's own transactions make to c's generation (C10_consumer_accounting in
+   Props/C10.v), so "succeeds" becomes "increments": the two recorded findings are about answers and are shown as examples. *)
+From PV Require Import Model.ConcAll Proofs.C10c Proofs.C05a Proofs.C06a.
+
+(* one transaction of a thread holding generation g for c (a_cheld: every entry, Consumer object and allocation object of the
+   thread that mentions c is bound to g; from 1.28) that fixes a success: with an allocation object for c it found c at g and
+   left it at g + 1 (or ended it, when the write leaves c without allocations); without one - the request does not write c,
+   or it is a clearing write whose re-read found no rows: known finding "double wipe" - it compares nothing and leaves c alone *)
+Theorem C06_commit_generation_all_kinds : forall cf t d c g r,
+  a_resp t = None -> a_cheld t c g = true ->
+  a_resp (fst (astep cf t d)) = Some r -> status r < 300 ->
+  if a_cobjs t c
+  then cgen_of d c = Some g /\ (cgen_of (snd (astep cf t d)) c = Some (g + 1) \/ cgen_of (snd (astep cf t d)) c = None)
+  else cgen_of (snd (astep cf t d)) c = cgen_of d c.
+Proof. exact c06a_commit_generation. Qed.
+Print Assumptions C06_commit_generation_all_kinds.
+
+(* ... and until then it keeps holding g *)
+Theorem C06_holds_until_commit : forall cf t d c g, a_resp t = None -> a_cheld t c g = true ->
+  a_resp (fst (astep cf t d)) = None -> a_cheld (fst (astep cf t d)) c g = true.
+Proof. intros cf t d c g Er Hh E. exact (proj1 (a_cheld_step cf t d c g Er Hh) E). Qed.
+Print Assumptions C06_holds_until_commit.
+
+(* which requests hold g / carry null for c from the start *)
+Theorem C06_held_by_kind : forall cf c g,
+  (forall v e, cholds0 cf c g (AllocPut v e) = ent_ok v g c e) /\
+  (forall v l, 13 <= v -> cholds0 cf c g (AllocPost v l) = forallb (ent_ok v g c) l) /\
+  (forall v ri l, 30 <= v -> cholds0 cf c g (Reshape v ri l) = forallb (ent_ok v g c) l) /\
+  (forall c0, cholds0 cf c g (AllocDelete c0) = false) /\
+  (forall v e, cnull0 cf c (AllocPut v e) = ent_null v c e) /\
+  (forall v l, 13 <= v -> cnull0 cf c (AllocPost v l) = forallb (ent_null v c) l) /\
+  (forall v ri l, 30 <= v -> cnull0 cf c (Reshape v ri l) = forallb (ent_null v c) l) /\
+  (forall c0, cnull0 cf c (AllocDelete c0) = false).
+Proof. exact cheld_table. Qed.
+Theorem C06_entry_holds : forall v g c e, ent_ok v g c e = true <-> (ci_uuid e = c -> ci_gen e = Some g /\ 28 <= v).
+Proof. exact ent_ok_spec. Qed.
+Theorem C06_entry_null : forall v c e, ent_null v c e = true <-> (ci_uuid e = c -> ci_gen e = None /\ 28 <= v).
+Proof. exact ent_null_spec. Qed.
+Print Assumptions C06_held_by_kind.
+
+(* while c exists (c_alive: in the start state and after every step): of the requests holding g for c AT MOST ONE increments c *)
+Theorem C06_at_most_one_all_kinds : forall cf reqs s d c g,
+  c_alive cf c s (map (ainit cf) reqs) d ->
+  let fs := map (cholds0 cf c g) reqs in
+  let '(_, _, tl) := c_run_tally cf c s (map (ainit cf) reqs) d (map (fun _ => 0) reqs) in
+  cnt fs tl <= 1 /\
+  forall i j, i <> j -> nth i fs false = true -> nth j fs false = true -> 0 < nth i tl 0 -> 0 < nth j tl 0 -> False.
+Proof. exact c06a_at_most_one. Qed.
+Print Assumptions C06_at_most_one_all_kinds.
+
+(* c_alive is needed: generations restart at 0 when a consumer is deleted and created again, so a generation number recurs -
+   two requests holding generation 1 both increment consumer 2 (write, DELETE, null PUT, write of a request that had looked
+   the consumer up before the first write) *)
+Theorem C06_at_most_one_needs_alive :
+  cy_run 2 [1; 0; 0; 0; 2; 2; 2; 2; 3; 3; 3; 3; 1; 1]%nat [cy_pA; cy_pB; AllocDelete 2; cy_pN] =
+    ([204; 204; 204; 204], Some 1, Some 2, [1; 1; 0; 1]) /\
+  map (cholds0 cx_cf 2 1) [cy_pA; cy_pB; AllocDelete 2; cy_pN] = [true; true; false; false].
+Proof. exact c06a_needs_alive. Qed.
+Print Assumptions C06_at_most_one_needs_alive.
+
+(* the null case: in a schedule that does not end c (c_no_end; c may be created), of the requests carrying null for c AT MOST
+   ONE increments c - the one whose own transaction created it *)
+Theorem C06_null_at_most_one : forall cf reqs s d c,
+  c_no_end cf c s (map (ainit cf) reqs) d ->
+  let fs := map (cnull0 cf c) reqs in
+  let '(_, _, tl) := c_run_tally cf c s (map (ainit cf) reqs) d (map (fun _ => 0) reqs) in
+  forall i j, i <> j -> nth i fs false = true -> nth j fs false = true -> 0 < nth i tl 0 -> 0 < nth j tl 0 -> False.
+Proof. exact c06a_null_at_most_one. Qed.
+Print Assumptions C06_null_at_most_one.
+(* a request carrying null adds nothing before its own transaction has created c *)
+Theorem C06_null_adds_nothing_before_creating : forall cf c t z d, nrb c t z = true ->
+  nrb c (fst (astep cf t d)) (z + cdelta d (snd (astep cf t d)) c) = true \/ ccreate d (snd (astep cf t d)) c.
+Proof. intros cf c t z d. apply nr_step. Qed.
+Print Assumptions C06_null_adds_nothing_before_creating.
+Theorem C06_null_needs_no_end :
+  cy_run 5 [0; 0; 0; 0; 1; 1; 1; 1; 2; 2; 2; 2]%nat [cy_n5a; AllocDelete 5; cy_n5b] = ([204; 204; 204], None, Some 1, [1; 0; 1]) /\
+  map (cnull0 cx_cf 5) [cy_n5a; AllocDelete 5; cy_n5b] = [true; false; true].
+Proof. exact c06a_null_needs_no_end. Qed.
+
+(* the two recorded findings in this model: both are about ANSWERS, neither contradicts the statements about increments *)
+Theorem C06_double_wipe_all_kinds :
+  cy_run 2 [0; 0; 0; 1; 0; 1; 1]%nat [cy_wipe; cy_wipe] = ([204; 204], Some 1, None, [0; 0]) /\
+  map (cholds0 cx_cf 2 1) [cy_wipe; cy_wipe] = [true; true].
+Proof. exact c06a_double_wipe. Qed.
+Theorem C06_success_on_consumer_created_by_failed_request :
+  cy_run 5 [0; 0; 0; 1; 1; 1; 0; 0]%nat [cy_n5a; cy_g5] = ([409; 204], None, Some 1, [0; 1]) /\
+  map (cnull0 cx_cf 5) [cy_n5a; cy_g5] = [true; false] /\ map (cholds0 cx_cf 5 0) [cy_n5a; cy_g5] = [false; true] /\
+  c_no_end cx_cf 5 [0; 0; 0; 1; 1; 1; 0; 0]%nat (map (ainit cx_cf) [cy_n5a; cy_g5]) cx_d0.
+Proof. exact c06a_null_vs_gen0. Qed.
+Print Assumptions C06_double_wipe_all_kinds.
+Print Assumptions C06_success_on_consumer_created_by_failed_request.
+(* non-vacuity of the two at-most-one statements *)
+Theorem C06_two_writers_example :
+  cy_run 2 [0; 0; 1; 1; 1; 0]%nat [cy_pA; cy_pB] = ([409; 204], Some 1, Some 2, [0; 1]) /\
+  map (cholds0 cx_cf 2 1) [cy_pA; cy_pB] = [true; true] /\
+  c_alive cx_cf 2 [0; 0; 1; 1; 1; 0]%nat (map (ainit cx_cf) [cy_pA; cy_pB]) cx_d0.
+Proof. exact c06a_two_writers. Qed.
+Theorem C06_two_null_puts_example :
+  cy_run 5 [0; 0; 1; 0; 0; 1]%nat [cy_n5a; cy_n5b] = ([204; 409], None, Some 1, [1; 0]) /\
+  map (cnull0 cx_cf 5) [cy_n5a; cy_n5b] = [true; true] /\
+  c_no_end cx_cf 5 [0; 0; 1; 0; 0; 1]%nat (map (ainit cx_cf) [cy_n5a; cy_n5b]) cx_d0.
+Proof. exact c06a_two_null_puts. Qed.
+Print Assumptions C06_two_writers_example.
+Print Assumptions C06_two_null_puts_example.
